@@ -1,9 +1,15 @@
 import Rare.Model.C15Replace
 import Rare.Model.C15Trunc
+import Rare.Proofs.C15NotifyLive
+import Rare.Proofs.C15Rename
 /-!
-C15 – from a quiet state (reader in its `select`, no signal, no queued event) nothing moves without the writer.
+C15 – a file renamed onto the followed path.
+* From a quiet state (reader in its `select`, no signal, no queued event) nothing moves without the writer.
+* With re-open the invariant `NInv` of the notify system is preserved by the writer step `replace` as well
+  (the `Create` event is a pending delete signal: `dP`), hence by every step of the full system `NStepO`.
 -/
 namespace Rare.Follow
+open Rare.C15.Spec
 
 variable {β : Type}
 
@@ -28,5 +34,67 @@ theorem quiet_stays {cfg : NCfg} {s s' : NSt β} (hq : s.quiet) (hr : NSysReach 
   cases hr with
   | refl => rfl
   | step hw hs _ => exact absurd hs (quiet_no_step hq hw)
+
+/-- a replace is, for the file system, a creation followed by an append to the new inode -/
+theorem FS.replace_eq (fs : FS β) (bs : List β) : fs.replace bs = (fs.create).append fs.next bs := by
+  simp only [FS.replace, FS.create, FS.append]
+  congr 1
+  funext j
+  by_cases hj : j = fs.next <;> simp [hj]
+
+variable {cfg : NCfg} {ex : Bool} {st0 : Nat}
+
+/-- The invariant of the notify system survives an atomic replace in re-open mode. -/
+theorem ninv_replace {s : NSt β} (h : NInv cfg ex st0 s) (hre : cfg.reopen = true) (bs : List β) :
+    NInv cfg ex st0 { s with fs := s.fs.replace bs, evq := s.evq ++ [.create], removes := s.removes + 1 } := by
+  have hne : ∀ x ∈ s.hist ++ s.f.toList, x.ino ≠ s.fs.next := by
+    intro x hx; have := (h.core.bounds x hx).2.2; omega
+  have hcont : ∀ x ∈ s.hist ++ s.f.toList, (s.fs.replace bs).content x.ino = s.fs.content x.ino := by
+    intro x hx; simp [FS.replace, hne x hx]
+  refine ⟨?_, ?_, h.starts, ?_, ?_, h.incr, ?_, ?_, ?_, ?_, ?_, ?_, ?_⟩
+  · show Core (s.fs.replace bs) s.f s.hist s.delivered
+    rw [FS.replace_eq]; exact h.core.create.append _ _
+  · intro x hx
+    show x.pos ≤ ((s.fs.replace bs).content x.ino).length
+    rw [hcont x hx]; exact h.strong x hx
+  · intro _ x hx j hj
+    simp only [FS.replace, Option.some.injEq] at hj; subst hj
+    exact (h.core.bounds x (by simp [hx])).2.2
+  · intro x hx j hj
+    simp only [FS.replace, Option.some.injEq] at hj; subst hj
+    have hx' : s.f = some x := hx
+    exact Nat.le_of_lt (h.core.bounds x (by simp [hx'])).2.2
+  · intro x hx hu
+    have hx' : s.f = some x := hx
+    have hu' : unread s.fs x ≠ [] := by
+      have := hcont x (by simp [hx'])
+      simpa [unread, this] using hu
+    rcases h.wake x hx' hu' with h1 | h1 | h1
+    · exact Or.inl h1
+    · exact Or.inr (Or.inl (by simp [h1]))
+    · exact Or.inr (Or.inr h1)
+  · intro _; exact Or.inl (Nat.succ_pos _)
+  · intro hr; have := (h.ended hr).1; rw [hre] at this; cases this
+  · intro hr; rw [hre] at hr; cases hr
+  · intro x _ _; exact Or.inr (Or.inr ⟨hre, by simp⟩)
+  · intro _ _ j _; exact Or.inr (Or.inl (by simp))
+  · intro _ hr; simp at hr
+
+theorem ninvO_step (hW : 1 ≤ cfg.capW) (hD : 1 ≤ cfg.capD) (hre : cfg.reopen = true) {w : Who} {s s' : NSt β}
+    (h : NInv cfg ex st0 s) (hs : NStepO cfg w s s') : NInv cfg ex st0 s' := by
+  cases hs with
+  | base hb => exact ninv_step hW hD h (nstepR_is_nstep hre hb)
+  | replace _ i bs hp => exact ninv_replace h hre bs
+
+theorem ninvO_reach (hW : 1 ≤ cfg.capW) (hD : 1 ≤ cfg.capD) (hre : cfg.reopen = true) (c0 : Option (List β))
+    (tail : Bool) {s : NSt β} (hr : NReachO cfg (ninit c0 tail) s) : NInv cfg c0.isSome (start0 c0 tail) s := by
+  induction hr with
+  | refl => exact ninv_init cfg c0 tail
+  | step _ hs ih => exact ninvO_step hW hD hre ih hs
+
+theorem nreachR_is_nreachO {cfg : NCfg} {s0 s : NSt β} (hr : NReachR cfg s0 s) : NReachO cfg s0 s := by
+  induction hr with
+  | refl => exact .refl
+  | step _ hs ih => exact .step ih (.base hs)
 
 end Rare.Follow
